@@ -63,6 +63,16 @@ def _run_shard(args):
     numpy.seterr(all="ignore")
     mod = importlib.import_module("bv.props.%s" % pid.lower())
     ctx = core.Ctx(pid, tier, seed, shard=spec.get("shard", 0), known=known, budget_s=budget_s)
+    cov = None
+    if os.environ.get("BV_COVERAGE"):
+        # optional line coverage of the tree under test (python -m bv.cover): which anchored lines the generated
+        # cases reach; never part of a verdict
+        import coverage
+
+        from bv import env as _env
+
+        cov = coverage.Coverage(data_file=os.path.join(os.environ["BV_COVERAGE"], "cov.%s.%s.%d" % (pid, spec.get("shard", 0), os.getpid())), include=[os.path.join(_env.SRC, "*")], omit=["*/_tests/*"])
+        cov.start()
     try:
         if "__seeds__" in spec:
             # committed regression cases (one per defect found earlier): plain checks, no Hypothesis
@@ -83,6 +93,10 @@ def _run_shard(args):
     except BaseException:
         res = ctx.result()
         res["error"] = traceback.format_exc()
+    finally:
+        if cov is not None:
+            cov.stop()
+            cov.save()
     return res
 
 
